@@ -15,11 +15,12 @@ import (
 	"verif/mc/ref"
 )
 
-var c16Nums = []V{0.0, 1.0, -1.0, 1.5, 0.1, 3.0, 1e21, 1e-7, 123456789012.0, 12345678901234567890.0, 9007199254740993.0, 1e300, 1e-300, 1.7976931348623157e308, 5e-324, -0.5, 100.0, 1e15, 1e16, 123456.789}
+var c16Nums = []V{0.0, 1.0, -1.0, 1.5, 0.1, 3.0, 1e21, 1e-7, 123456789012.0, 12345678901234567890.0, 9007199254740993.0, 1e300, 1e-300, 1.7976931348623157e308, 5e-324, -0.5, 100.0, 1e15, 1e16, 123456.789, 9223372036854775807.0, -9223372036854775808.0, 1e19, 18446744073709551616.0, 4294967296.0, 2147483648.0}
 
 func c16Embed(x V) []V {
 	out := []V{x, []interface{}{x}, []interface{}{x, x}, map[string]interface{}{"k": x}, map[string]interface{}{"k": []interface{}{x, map[string]interface{}{"j": x}}}}
-	if s, ok := x.(string); ok {
+	// YAML limits implicit (simple) keys to 1024 characters, so longer strings are values only
+	if s, ok := x.(string); ok && len(s) <= 1000 {
 		out = append(out, map[string]interface{}{s: 1.0}, map[string]interface{}{s: s}, map[string]interface{}{"k": map[string]interface{}{s: []interface{}{s}}}, []interface{}{map[string]interface{}{s: nil}})
 	}
 	return out
@@ -91,7 +92,7 @@ func init() {
 		Run:      runC16,
 		Required: func(string) []string { return []string{"doc/", "cli/"} },
 		Assume:   []string{"the harness never feeds raw JSON text to the YAML reader (JSON is not a subset of YAML 1.1 for raw DEL / C1 characters); its two YAML writers escape what YAML 1.1 requires", "numbers are written in the shortest round-tripping decimal form"},
-		Budget:   budget(4*time.Minute, 30*time.Minute),
+		Budget:   budget(7*time.Minute, 30*time.Minute),
 	})
 }
 
